@@ -97,8 +97,9 @@ def apply_edit(o, spec, ed, keep_image_medium=False):
         return s2
     if kind == 'scale':
         # Optic.scale_system(): planes and conics, angular fields (what the library's method handles)
-        if any(q['type'] != 'standard' for q in S) or spec['ftype'] != 'angle' or spec['img'].get('shape'):
-            return None
+        if any(q['type'] != 'standard' or q['dx'] or q['dy'] for q in S) or spec['ftype'] != 'angle' or \
+                spec['img'].get('shape'):
+            return None            # (the method rescales radii, thicknesses, EPD and apertures: not decentres or coefficients)
         sc = round(f ** 4, 6)
         if sc == 1.0:
             return None
